@@ -51,7 +51,7 @@ func init() {
 				for _, pfx := range []string{"", "st"} {
 					for s := 0; s < tierPick(tier, 1, 6); s++ {
 						bs = append(bs, core.Batch{Name: fmt.Sprintf("history-%d-%d", i, s), TimeoutS: 600,
-							Params: core.Params(idxParams{Kind: "history", Typed: typed, Prefix: pfx, Histories: tierPick(tier, 15, 300), Shard: s})})
+							Params: core.Params(idxParams{Kind: "history", Typed: typed, Prefix: pfx, Histories: tierPick(tier, 30, 300), Shard: s})})
 					}
 					i++
 				}
